@@ -489,3 +489,9 @@ def r10(ctx):
         ctx.ob(f"{W}:iteration:{how}:resumes-after-timeout", bad is None, "the timeout is raised to the caller and the next attempt receives the next message" if bad is None else
                f"{how}: after a receive timeout the next attempt ends as {bad[1].kind} {bad[1].exc_class or bad[1].value!r} with {len([e for e in bad[1].effects if e.name == 'recv'])} recv() "
                f"call(s) in total: the message stream of an open connection ends (or is not resumed) because of one timeout", loc, {"path": path_text(bad[1])} if bad else None)
+
+
+@rule("R-C03-11", min_instances=2, title="WebSocket._recv: a timeout raised by the transport layer leaves sock / connected alone and reaches the caller as a timeout, whatever the class hierarchy of _exceptions.py says (a handler for 'connection closed' must not cover it)")
+def r11(ctx):
+    from .c08 import recv_release
+    recv_release(ctx)
